@@ -43,6 +43,8 @@ type Exchange struct {
 	panicVal    any
 	chunks      []int // client-side reads return at most chunks[i%len] bytes (see Transport.Chunks)
 	reads       int
+	dieAfter    int // >= 0: the client vanishes (CutQuietly) when the handler makes write number dieAfter+1
+	nWrites     int
 }
 
 // Status returns the response status (0 until committed).
@@ -155,6 +157,12 @@ func (w *respWriter) Write(p []byte) (int, error) {
 	if w.status == 0 {
 		w.status = http.StatusOK
 	}
+	if w.e.dieAfter >= 0 && w.e.nWrites >= w.e.dieAfter && !w.e.cut {
+		// the client is gone by now; this write is the first to fail
+		w.e.cut, w.e.quiet, w.e.cutErr, w.e.cutAt = true, true, ErrCut, w.e.written.Len()
+		w.e.cond.Broadcast()
+	}
+	w.e.nWrites++
 	if w.e.cut {
 		if w.e.quiet && w.e.cancel != nil {
 			w.e.quiet = false
@@ -261,6 +269,9 @@ type Transport struct {
 	// FirstFlushLag, if positive, makes the first Flush of every GET response return that long after its
 	// data reached the client (the client can act on an SSE "endpoint" event before the server goes on).
 	FirstFlushLag time.Duration
+	// DieAfterWrites, if set, is asked for every request: n >= 0 means the client of that exchange vanishes
+	// unnoticed (as with CutQuietly) after the handler's first n writes to the response: write n+1 fails.
+	DieAfterWrites func(req *http.Request) int
 
 	mu        sync.Mutex
 	exchanges []*Exchange
@@ -293,7 +304,10 @@ func (t *Transport) RoundTrip(req *http.Request) (*http.Response, error) {
 		reqBody, _ = io.ReadAll(req.Body)
 		req.Body.Close()
 	}
-	e := &Exchange{Method: req.Method, URL: req.URL.String(), Header: req.Header.Clone(), Body: reqBody, chunks: t.Chunks}
+	e := &Exchange{Method: req.Method, URL: req.URL.String(), Header: req.Header.Clone(), Body: reqBody, chunks: t.Chunks, dieAfter: -1}
+	if t.DieAfterWrites != nil {
+		e.dieAfter = t.DieAfterWrites(req)
+	}
 	e.cond = sync.NewCond(&e.mu)
 	if tag, ok := req.Context().Value(tagKey{}).(string); ok {
 		e.Tag = tag
